@@ -26,7 +26,7 @@ func (g *tgen) readOp(rt *rapid.T, db *model.DB, filterPct int) model.Op {
 	if len(view) > 0 {
 		rep = rapid.SampledFrom(view).Draw(rt, "repItem")
 	}
-	c := gen.NewExprCtx(rep, g.o)
+	c := gen.NewExprCtx(rep, g.o).Style(rt)
 	c.IllTyped = 5
 	if rapid.IntRange(0, 9).Draw(rt, "isQuery") < 7 {
 		op.Kind = "Query"
